@@ -24,6 +24,26 @@ def target_callable(spec):
     return obj
 
 
+def opaque_value(x):
+    """a concrete stand-in for an opaque model value: equal ids give equal values, different ids different values"""
+    import datetime
+    import pathlib
+    import uuid
+    kind, ident = x["opaque"], str(x["id"])
+    n = sum(ord(c) * (k + 1) for k, c in enumerate(ident)) % 100000
+    if kind == "UUID":
+        return uuid.uuid5(uuid.NAMESPACE_DNS, ident)
+    if kind == "DateTime":
+        return datetime.datetime(2020, 1, 1) + datetime.timedelta(seconds=n)
+    if kind == "Date":
+        return datetime.date(2020, 1, 1) + datetime.timedelta(days=n % 3000)
+    if kind == "Time":
+        return datetime.time(n % 24, n % 60)
+    if kind == "Path":
+        return pathlib.Path(ident.replace("!", "_") + ".wav")
+    return x
+
+
 def build(x, exact=False, raw=False):
     """raw=True: objects stay dicts of their fields (a contract's own build_inputs makes the real objects)."""
     if raw:
@@ -51,9 +71,16 @@ def build(x, exact=False, raw=False):
         if "obj" in x:
             cls = resolve(x["obj"])
             fields = {k: build(v, exact) for k, v in x["fields"].items()}
-            return cls(**fields)
+            try:
+                return cls(**fields)
+            except Exception:
+                # parts of the object the model does not constrain (unmodelled required fields) are left out:
+                # pydantic does not re-validate model instances passed as field values
+                if hasattr(cls, "model_construct"):
+                    return cls.model_construct(**fields)
+                raise
         if "opaque" in x:
-            return x
+            return opaque_value(x)
         return {k: build(v, exact) for k, v in x.items()}
     if isinstance(x, list):
         return [build(y, exact) for y in x]
